@@ -26,7 +26,10 @@ type accFacts struct {
 	methods             map[*ssa.Function]*accMethod
 }
 
-func accumulatorFacts(p *Program, typeName string) *accFacts {
+func accumulatorFacts(p *Program, typeName string) *accFacts { return accumulatorFactsOpt(p, typeName, true) }
+
+// accumulatorFactsOpt: needSize=false accepts a wrapper that only keeps a running CRC (crcWriter).
+func accumulatorFactsOpt(p *Program, typeName string, needSize bool) *accFacts {
 	af := &accFacts{methods: map[*ssa.Function]*accMethod{}}
 	var write *ssa.Function
 	ms := methodsOf(p, pkgMcap, typeName)
@@ -77,7 +80,7 @@ func accumulatorFacts(p *Program, typeName string) *accFacts {
 			}
 		}
 	}
-	if af.sizeField == "" || af.crcField == "" {
+	if (needSize && af.sizeField == "") || af.crcField == "" {
 		return nil
 	}
 	if af.accType == "" {
